@@ -4,6 +4,7 @@ import (
 	"go/constant"
 	"go/token"
 	"go/types"
+	"sort"
 	"strings"
 
 	"golang.org/x/tools/go/ssa"
@@ -1048,7 +1049,7 @@ func (s *Fn) houdini() {
 	for x := range extra {
 		extras = append(extras, x)
 	}
-	_ = extras
+	sort.Slice(extras, func(i, j int) bool { return extras[i].Name() < extras[j].Name() })
 	for _, b := range s.f.Blocks {
 		for _, in := range b.Instrs {
 			phi, ok := in.(*ssa.Phi)
@@ -1082,6 +1083,19 @@ func (s *Fn) houdini() {
 						off := off
 						cands = append(cands, &phiCand{b: b, phi: phi, ok: true, txt: "<=len+off",
 							mk: func(v ssa.Value) Lin { return le(s.canon(v), s.lenOf(p).plus(off)) }})
+					}
+				}
+				// ... and against the other slices / strings the function indexes, when they are computed before the loop
+				for _, x := range extras {
+					x := x
+					xi, isInstr := x.(ssa.Instruction)
+					if !isInstr || xi.Block() == b || !xi.Block().Dominates(b) {
+						continue
+					}
+					for _, off := range []int64{0, -1} {
+						off := off
+						cands = append(cands, &phiCand{b: b, phi: phi, ok: true, txt: "<=len(local)+off",
+							mk: func(v ssa.Value) Lin { return le(s.canon(v), s.lenOf(x).plus(off)) }})
 					}
 				}
 				// lock-step counters: two integer phis of the same header keep the difference they start with
